@@ -426,6 +426,89 @@ Fixpoint m_modify (p : path) (f : heap -> hval -> mres) (h : heap) (cur : hval) 
     end
   end.
 
+(* modify_every_existing_index: the same walk plus list slices; cur is the private copy `old` of modify_every *)
+Fixpoint m_mevery (p : path) (f : heap -> hval -> mres) (h : heap) (cur : hval) : mres :=
+  match p with
+  | [] => f h cur
+  | pe :: rest =>
+    match cur with
+    | HRef l d =>
+      match get_cell h l with
+      | None => (h, cur, None)
+      | Some c =>
+        match ckind c with
+        | KList =>
+          match pe with
+          | PI z =>
+            let '(h1, l') := make_mut h l in
+            match norm_index (length (citems c)) z with
+            | Some n =>
+              match nth_item n (citems c) with
+              | Some e =>
+                let h2 := put_item h1 l' n HNull in
+                let '(h3, e', r) := m_mevery rest f h2 e in
+                (put_item h3 l' n e', HRef l' d, r)
+              | None => (h1, HRef l' d, None)
+              end
+            | None => (h1, HRef l' d, None)
+            end
+          | PSl lo hi =>
+            let '(a, b) := slice_bounds (length (citems c)) lo hi in
+            let '(h1, l') := make_mut h l in
+            let '(h2, ok) := m_range (fun hh e => let '(h', e', r) := m_mevery rest f hh e in
+                                                  (h', e', match r with Some _ => true | None => false end)) h1 l' a (b - a) in
+            (h2, HRef l' d, if ok then Some HNull else None)
+          | _ => let '(h1, l') := make_mut h l in (h1, HRef l' d, None)
+          end
+        | KDict =>
+          match pe with
+          | PSl _ _ => (h, cur, None)
+          | _ =>
+            match key_of_pelem pe with
+            | Some k =>
+              let '(h1, l') := make_mut h l in
+              match find_key k (citems c) with
+              | Some n =>
+                match nth_item n (citems c) with
+                | Some e =>
+                  let h2 := put_item h1 l' n HNull in
+                  let '(h3, e', r) := m_mevery rest f h2 e in
+                  (put_item h3 l' n e', HRef l' d, r)
+                | None => (h1, HRef l' d, None)
+                end
+              | None =>
+                match d with
+                | Some dv =>
+                  (* e.insert(default.clone()), then recurse on the inserted slot *)
+                  let h2 := clone_val h1 dv in
+                  let n := length (citems c) in
+                  let h3 := set_items h2 l' (citems c ++ [(k, HNull)]) in
+                  let '(h4, e', r) := m_mevery rest f h3 dv in
+                  (put_item h4 l' n e', HRef l' d, r)
+                | None => (h1, HRef l' d, None)
+                end
+              end
+            | None => (h, cur, None)
+            end
+          end
+        | _ => (h, cur, None)
+        end
+      end
+    | HInst sid fields =>
+      match pe with
+      | PF sid' fl =>
+        if Nat.eqb sid sid' then
+          match nth_error fields fl with
+          | Some e => let '(h1, e', r) := m_mevery rest f h e in (h1, HInst sid (hset_field fl e' fields), r)
+          | None => (h, cur, None)
+          end
+        else (h, cur, None)
+      | _ => (h, cur, None)
+      end
+    | _ => (h, cur, None)
+    end
+  end.
+
 (* Obj::try_pop: Rc::make_mut(xs).pop() *)
 Definition m_f_pop (h : heap) (v : hval) : mres :=
   match v with
@@ -811,6 +894,51 @@ Definition m_assign_to (st : mstate) (every : bool) (x : nat) (p : path) (w : hv
   | None => (mkst (drop_val (mheap st) w) (roots st), false)
   end.
 
+Definition m_every_leaf (f : bop) (w : hval) (h : heap) (a : hval) : mres :=
+  match m_bop f (clone_val h w) a w with
+  | (h1, Some r) => (h1, r, Some HNull)
+  | (h1, None) => (h1, HNull, None)
+  end.
+
+Fixpoint drop_vals (h : heap) (vs : list hval) : heap :=
+  match vs with [] => h | v :: tl => drop_vals (drop_val h v) tl end.
+
+(* eval_lvalue_as_obj of every target of an and-pattern, in order; a failure releases what was read *)
+Fixpoint m_read_all (rs : list hval) (h : heap) (ts : list (nat * path)) : heap * option (list hval) :=
+  match ts with
+  | [] => (h, Some [])
+  | (x, p) :: tl =>
+    match nth_error rs x with
+    | None => (h, None)
+    | Some cur =>
+      match m_read h cur p with
+      | (h1, None) => (h1, None)
+      | (h1, Some old) =>
+        match m_read_all rs h1 tl with
+        | (h2, Some olds) => (h2, Some (old :: olds))
+        | (h2, None) => (drop_val h2 old, None)
+        end
+      end
+    end
+  end.
+
+(* the last target takes the right-hand value itself, the others a clone *)
+Fixpoint m_and_loop (f : bop) (w : hval) (h : heap) (rs : list hval) (l : list ((nat * path) * hval)) : mstate * bool :=
+  match l with
+  | [] => (mkst (drop_val h w) rs, true)
+  | ((x, p), old) :: tl =>
+    let last := match tl with [] => true | _ => false end in
+    match nth_error rs x with
+    | None => (mkst (drop_vals (drop_val (drop_val h w) old) (map snd tl)) rs, false)
+    | Some cur =>
+      let h0 := if last then h else clone_val h w in
+      let '(h1, cur', ok) := m_opassign p f h0 cur old w in
+      let rs1 := set_root rs x cur' in
+      if ok then (if last then (mkst h1 rs1, true) else m_and_loop f w h1 rs1 tl)
+      else (mkst (drop_vals (if last then h1 else drop_val h1 w) (map snd tl)) rs1, false)
+    end
+  end.
+
 Definition m_exec_s (st : mstate) (s : sstmt) : mstate * bool :=
   let h := mheap st in
   let rs := roots st in
@@ -916,6 +1044,31 @@ Definition m_exec_s (st : mstate) (s : sstmt) : mstate * bool :=
           let '(h3, cur', ok) := m_opassign p f h2 cur old w in
           (mkst h3 (set_root rs x cur'), ok)
         end
+      end
+    end
+  | SEveryOp x p f e =>
+    match m_eval rs h e with
+    | (h1, None) => (mkst h1 rs, false)
+    | (h1, Some w) =>
+      match nth_error rs x with
+      | None => (mkst (drop_val h1 w) rs, false)
+      | Some cur =>
+        (* `let mut old = get_var(x)`: a second handle; the variable keeps its own until the write-back *)
+        let '(h2, cur', r) := m_mevery p (m_every_leaf f w) (clone_val h1 cur) cur in
+        let h3 := drop_val h2 w in
+        match r with
+        | Some _ => (mkst (drop_val h3 cur) (set_root rs x cur'), true)
+        | None => (mkst (drop_val h3 cur') rs, false)
+        end
+      end
+    end
+  | SAndOp ts f e =>
+    match m_read_all rs h ts with
+    | (h1, None) => (mkst h1 rs, false)
+    | (h1, Some olds) =>
+      match m_eval rs h1 e with
+      | (h2, None) => (mkst (drop_vals h2 olds) rs, false)
+      | (h2, Some w) => m_and_loop f w h2 rs (combine ts olds)
       end
     end
   end.
